@@ -228,7 +228,18 @@ fn expand(t: &str, n: usize) -> String {
 
 fn prop(t: &mut Tape, st: &mut Stats) -> Result<(), Failure> {
     let corpus = CORPUS.get().unwrap();
-    let bytes: Vec<u8> = match t.weighted(&[2, 5, 4, 3, 2]) {
+    let bytes: Vec<u8> = match t.weighted(&[2, 5, 4, 3, 2, 2]) {
+        5 => {
+            // nesting combinations around the recursion limit (arrays x inline tables x dotted keys x headers)
+            st.class("nesting-combo");
+            let sp = super::c05::gen_spec(t);
+            let mut sp = sp;
+            // keep the decoded depth small enough for this process' own stack: cap every part
+            sp.header = sp.header.min(120);
+            sp.key = sp.key.min(120);
+            sp.levels.truncate(120);
+            sp.text().into_bytes()
+        }
         0 => {
             // raw random bytes, biased towards TOML's punctuation
             let n = t.small(200);
@@ -331,6 +342,29 @@ fn child(args: &Args, rep: &mut Report) {
         }
         rep.violation("truncation", None, &f);
     }
+    // nesting + dotted key sums around the limit, in every split
+    for total in [78usize, 79, 80, 81, 82] {
+        for a in [0usize, 1, 2, 20, 40, 77, 78, 79] {
+            if a > total {
+                continue;
+            }
+            for inline in [false, true] {
+                let k = total - a;
+                let open = if inline { "{x=".repeat(a) } else { "[".repeat(a) };
+                let close = if inline { "}".repeat(a) } else { "]".repeat(a) };
+                let key = vec!["k"; k.max(1)].join(".");
+                for text in [format!("v = {open}{{ {key} = 1 }}{close}\n"), format!("{key} = {open}1{close}\n"), format!("[{key}]\nv = {open}1{close}\n")] {
+                    rep.stats.class("nesting-sum");
+                    if let Err(f) = run_one(text.as_bytes(), &mut rep.stats) {
+                        if f.sub == "slow" {
+                            fault(&format!("inconclusive: {}", f.msg));
+                        }
+                        rep.violation("nesting-sum", None, &f);
+                    }
+                }
+            }
+        }
+    }
     // the extremes at fixed sizes
     for e in EXTREMES {
         for n in [0usize, 1, 2, 79, 80, 81, 400, 4000] {
@@ -353,7 +387,12 @@ fn child(args: &Args, rep: &mut Report) {
         }
     }
     finish_run(rep, "inputs", run);
-    for c in ["non-utf8", "extreme", "truncation", "mutant.corpus", "mutant.generated", "valid"] {
+    if args.tier == Tier::Thorough && rep.violations.is_empty() {
+        // ASan build, every entry point, C15's error oracle inside the target
+        let seeds: Vec<Vec<u8>> = corpus.iter().filter(|b| b.len() <= 4096).cloned().collect();
+        fuzz_campaign(rep, "fuzz_c04", &seeds, 500_000, 8192, workers());
+    }
+    for c in ["nesting-combo", "nesting-sum", "non-utf8", "extreme", "truncation", "mutant.corpus", "mutant.generated", "valid"] {
         rep.require_class(c);
     }
 }
